@@ -5,6 +5,6 @@ B=${1:-8m}
 [ -n "$2" ] && export VERIF_SEED=$2
 ./setup.sh >/dev/null 2>&1 || exit 2
 for p in C01 C02 C03 C04 C05 C06 C07 C08 C09 C10 C11 C12 C13 C14 C15 C19 C20; do
-  ./bin/vcheck -prop $p -tier thorough -budget $B 2>&1 | grep -E "^vcheck: C|VIOLATION|KNOWN|trouble|did not replay" | cut -c1-600
+  ./bin/vcheck -prop $p -tier thorough -budget $B 2>&1 | grep -E -A15 "^vcheck: C|VIOLATION|KNOWN|trouble|did not replay" | cut -c1-600
 done
 echo thorough-all-done
